@@ -14,9 +14,10 @@ structure Signed where
   symlinks : List (Path × String) := []
   files : List (Path × List Byte) := []
 
-/-- errors the validator treats as "not there" (`IsNotExist`: ENOENT, and ENOTDIR — a parent that is not
-    a directory hides the entry just as well). -/
-def notExist (e : Err) : Bool := e == .enoent || e == .enotdir
+/-- errors the validator treats as "not there" (`IsNotExist`: ENOENT; ENOTDIR — a parent that is not a
+    directory hides the entry just as well; and, since the repair of finding F23, ELOOP — a parent that is a
+    symlink leading back to itself does too). -/
+def notExist (e : Err) : Bool := e == .enoent || e == .enotdir || e == .eloop
 
 def dirWounds (t : Tree) : Nat → List Path → Outcome (List Wound)
   | _, [] => .ok []
